@@ -1,7 +1,7 @@
 From Coq Require Import List ZArith Lia Bool.
 Import ListNotations.
 Require Import Base Tree Driver Inl3e Render Props.
-Require QFullDefs QFull.
+Require QFullDefs QFull IFullDefs IFull3 IFull.
 Open Scope Z_scope.
 
 (* Continuation of PropsFull.v for statements whose proofs themselves use PropsFull's theorems (so they cannot live there). *)
@@ -12,5 +12,13 @@ Proof. exact QFull.parseFull_quote. Qed.
 Theorem C09_quote_render : QFullDefs.renderDoc_quote_statement.
 Proof. exact QFull.renderDoc_quote. Qed.
 
+(* C09, list-item clause through the inline pass and the renderer (safe mode) *)
+Theorem C09_item_parse : IFullDefs.parseFull_item_statement.
+Proof. exact IFull3.parseFull_item. Qed.
+Theorem C09_item_render : IFullDefs.renderDoc_item_statement.
+Proof. exact IFull.renderDoc_item. Qed.
+
+Print Assumptions C09_item_parse.
+Print Assumptions C09_item_render.
 Print Assumptions C09_quote_parse.
 Print Assumptions C09_quote_render.
